@@ -160,3 +160,17 @@ Theorem C12_selection_total_all_f32 : forall (p : profile) (a : algo) (meth : me
   \/ run_with F32 p a meth s d m n = Panic PNaN.
 Proof. exact selection_total_wf_all_f32. Qed.
 Print Assumptions C12_selection_total_all_f32.
+
+(* generic with ALL seven methods in exact rational arithmetic with an infinite
+   sentinel (carrier option Q; every hypothesis of C12_generic_total_wf is
+   discharged there) *)
+Require Import KV.Proofs.QInf.
+From Coq Require Import QArith.
+Local Close Scope Q_scope.
+Theorem C12_generic_QI_total_wf : forall (p : profile) (rt : Q -> Q) (meth : method) s d (mq : list Q) (n : N),
+  (n < two32)%N -> wf_shape n (N.of_nat (length mq)) ->
+  (exists s' d' m', generic_with (kops_of (QI rt) meth) p meth s d (map Some mq) n = Ok (s', d', m')
+                     /\ wf_dend (d_obs d') (d_steps d'))
+  \/ generic_with (kops_of (QI rt) meth) p meth s d (map Some mq) n = Panic PNaN.
+Proof. exact generic_QI_total_wf. Qed.
+Print Assumptions C12_generic_QI_total_wf.
